@@ -83,7 +83,7 @@ def register_rules(R, pfx="C06"):
     set_semantics_rules(R, pfx)
     F = R.F
     # (1) who writes ops, and only through extend/insert
-    sites = R.who_may_write(pfx + ".ops", SR, "ops", [SR + "::merge", SR + "::verified_merge", SR + "::add_op"], floor=3,
+    sites = R.who_may_write(pfx + ".ops", SR, "ops", [SR + "::merge", SR + "::verified_merge", SR + "::add_op"], floor=2,
                             descr="SignedRegister.ops is mutated only by merge, verified_merge and add_op")
     ok = True
     n = 0
@@ -400,7 +400,7 @@ def crdt_rules(R, pfx="C06"):
     from rules import PL, _chain_calls, DROPPING_ADAPTORS
     from flow import whole_uses
     F = R.F
-    R.who_may_write(pfx + ".crdt.own", CRDT, "data", [CRDT + "::merge", CRDT + "::apply_op", CRDT + "::write"], floor=3,
+    R.who_may_write(pfx + ".crdt.own", CRDT, "data", [CRDT + "::merge", CRDT + "::apply_op", CRDT + "::write"], floor=2,
                     descr="RegisterCrdt.data is mutated only by merge, apply_op and write")
     mg = R.body(pfx + ".crdt.merge", CRDT + "::merge")
     if mg is not None:
